@@ -1,17 +1,351 @@
-"""Calibration parts of C01 / C06 / C07 / C09 (filled in by the calibration driver)."""
+"""Calibration: shared driver code for C10 / C11 and the calibration parts of C01 C04 C06 C07 C09."""
+
+from __future__ import annotations
+
+import copy
+import hashlib
+import json
+
+from harness import calib, check, tlc
+
+EVAL_FIELDS = {"C10": ("e", "out", "x", "applied", "converted", "lower", "upper"),
+               "C11": ("e", "out", "x", "fitness", "ncalls"),
+               "C01": ("e", "out", "x", "ncalls")}
+CALIB_FIELDS = ("e", "out", "x", "params", "applied", "convok", "kind", "island", "evolution", "fitness", "resim",
+                "ncalls", "msgok")
+
+
+def family(ctx, fam):
+    tier = ctx.tier
+    ctx.model_check("MC_Calibration", f"MC_Calibration_{fam}_{tier}.cfg", required_actions=["Check"],
+                    note={"ranges": "every pair of target / result fit ranges on a 3x3 target (equal, shifted, unequal "
+                                    "extent, empty, reversed, out of bounds)",
+                          "layouts": "every layout of <= MAXV scalar / vector, linear / logarithmic variables x 1..2 "
+                                     "target-input pairs x weights x fitness functions, decision vectors at the box "
+                                     "corners and centre"}[fam])
+    out = tlc.workdir() / f"export_{ctx.prop}_cal_{fam}.json"
+    if out.exists():
+        out.unlink()
+    r2 = tlc.run_tlc("MC_CalibrationExport", f"MC_Calibration_{fam}_{tier}_export.cfg", tag=f"{ctx.prop}_cal_{fam}_export",
+                     env={"OUT_FILE": str(out)}, workers=1, timeout=600)
+    if not out.exists():
+        raise tlc.MachineryError(f"export of calibration family {fam} failed:\n{r2.output[-2000:]}")
+    cases = json.loads(out.read_text())
+    out.unlink()
+    return cases
+
+
+def xs_for(k):
+    lo = [b for v in k["vars"] for b in v["lo"]]
+    hi = [b for v in k["vars"] for b in v["hi"]]
+    mid = [(a + b) // 2 for a, b in zip(lo, hi)]
+    alt = [a if c % 2 == 0 else b for c, (a, b) in enumerate(zip(lo, hi))]
+    out = []
+    for x in (lo, hi, mid, alt):
+        if x not in out:
+            out.append(x)
+    return out
+
+
+def strip_eval(tr, prop):
+    keep = EVAL_FIELDS[prop]
+    evs = []
+    for ev in tr["events"]:
+        e = {k: v for k, v in ev.items() if k in keep}
+        if prop == "C10" and e["e"] == "eval" and not e.get("applied"):
+            e["applied"] = []
+        evs.append(e)
+    if prop == "C10" and tr.get("meta") and any(e["e"] == "build" and e["out"] == "ok" for e in evs):
+        b = {"e": "bounds", "lower": [calib._intval(v) for v in tr["meta"]["lower"]],
+             "upper": [calib._intval(v) for v in tr["meta"]["upper"]]}
+        evs.insert(1, b)
+    return {"kind": "eval", "kcfg": tr["kcfg"], "events": evs, "fault": -1}
+
+
+def strip_calib(tr, prop):
+    evs = []
+    for ev in tr["events"]:
+        e = {k: v for k, v in ev.items() if k in CALIB_FIELDS}
+        if prop == "C10" and e["e"] == "champ":
+            e["resim"], e["fitness"] = True, 0
+        evs.append(e)
+    return {"kind": "calib", "kcfg": tr["kcfg"], "events": evs, "fault": tr.get("fault", -1)}
+
+
+def rank_fitness(tr):
+    """Replace real-valued fitness by its rank inside the trace (only the order matters)."""
+    vals = sorted({e["fit"] for e in tr["events"] if e["e"] == "champ"})
+    for e in tr["events"]:
+        if e["e"] == "champ":
+            e["fitness"] = vals.index(e["fit"])
+    return tr
+
+
+def classify(tr, l, exp, prop):
+    evs = tr["events"]
+    ev = evs[l - 1] if 1 <= l <= len(evs) else {"e": "?"}
+    exp = exp if isinstance(exp, dict) else {}
+    k = tr["kcfg"]
+    info = {"event": ev["e"], "tr": k["tr"], "rr": k["rr"], "nvars": len(k["vars"]),
+            "log": any(v["log"] for v in k["vars"]), "vector": any(v["arity"] > 1 for v in k["vars"]),
+            "npairs": len(k["pairs"])}
+    if ev["e"] == "build":
+        info["rangesok"] = exp.get("rangesok")
+        sig = "ranges.accepted" if ev.get("out") == "ok" else "ranges.refused"
+        return sig, (f"fit ranges target {k['tr']} / result {k['rr']} on a {len(k['pairs'][0]['target'])}x"
+                     f"{len(k['pairs'][0]['target'][0])} target were {ev.get('out')} ({ev.get('why', '')}); the "
+                     f"specification says RangesOK = {exp.get('rangesok')}"), info
+    if ev["e"] == "bounds":
+        return "bounds", f"get_bounds() gives {ev.get('lower')} .. {ev.get('upper')} for variables {k['vars']}", info
+    if ev["e"] == "eval":
+        want = exp.get("expect", {})
+        if "why" in ev and ev.get("why"):
+            return "eval.error", f"fitness({ev.get('x')}) raised {ev['why']} for ranges {k['tr']}/{k['rr']}", info
+        if "applied" in ev and ev.get("applied") != want.get("applied") and prop in ("C10",):
+            return "applied", (f"decision {ev.get('x')} applied to the pipeline as {ev.get('applied')} "
+                               f"(converted {ev.get('converted')}), specification: {want.get('applied')}"), info
+        if "fitness" in ev and ev.get("fitness") != want.get("fitness"):
+            return "fitness", (f"fitness({ev.get('x')}) = {ev.get('fitness')} but the declared figure of merit on the "
+                               f"declared data is {want.get('fitness')} (ranges {k['tr']}/{k['rr']}, {k['ff']}, "
+                               f"{len(k['pairs'])} pair(s), model ran {ev.get('ncalls')} time(s))"), info
+        return "eval", f"evaluation {ev} does not match the specification {want}", info
+    if ev["e"] == "cand":
+        return "candidate", (f"candidate {ev.get('x')} -> parameters {ev.get('params')} applied as {ev.get('applied')} "
+                             f"(convok {ev.get('convok')}) violates box / boundaries / layout"), info
+    if ev["e"] == "champ":
+        return "reported", (f"reported {ev.get('kind')} of island {ev.get('island')} evolution {ev.get('evolution')}: "
+                            f"decision {ev.get('x')} parameters {ev.get('params')} fitness {ev.get('fit')} "
+                            f"(re-simulated {ev.get('refit')}, resim ok {ev.get('resim')}, conversion ok {ev.get('convok')}); "
+                            f"champion history {exp.get('best')}"), info
+    if ev["e"] in ("done", "failed"):
+        return "failure", f"calibration ended with {ev} although a fault was injected after {tr.get('fault')} model calls", info
+    return "trace", f"{ev}", info
+
+
+def validate(ctx, traces, stripped, label, prop):
+    def corrupt(t):
+        for ev in t["events"]:
+            if ev["e"] == "eval" and ev.get("fitness") is not None and "fitness" in ev:
+                ev["fitness"] += 1
+                return t
+            if ev["e"] == "eval" and ev.get("applied"):
+                ev["applied"][0][0] += 1
+                return t
+            if ev["e"] == "champ":
+                ev["params"][0] += 1
+                return t
+        return None
+    rejected = ctx.validate("CalibrationTrace", stripped, label=label, corrupt=corrupt)
+    if not rejected:
+        return
+    idx = [k for k, _ in rejected][:60]
+    diag = tlc.diagnose("CalibrationTrace", [stripped[k] for k in idx], tag=f"{prop}_{label}")
+    seen = set()
+    for pos, k in enumerate(idx, start=1):
+        l, exp = diag.get(pos, (dict(rejected)[k], {}))
+        t = dict(traces[k])
+        t["events"] = stripped[k]["events"] if len(stripped[k]["events"]) == len(traces[k]["events"]) else traces[k]["events"]
+        # use the original events (with 'why', 'fit') when indices agree
+        sig, text, info = classify({**traces[k], "events": _align(traces[k]["events"], stripped[k]["events"])}, l, exp, prop)
+        key = (sig, json.dumps({a: info[a] for a in ("tr", "rr")}) if sig.startswith("ranges") else "")
+        if key in seen and len(seen) > 8:
+            continue
+        seen.add(key)
+        ctx.violation(sig, text, traces[k]["case"], info)
+
+
+def _align(orig, stripped):
+    """Stripped event lists may contain an inserted 'bounds' event: return originals index-aligned."""
+    out, j = [], 0
+    for e in stripped:
+        if e["e"] == "bounds":
+            out.append(e)
+        else:
+            out.append(orig[j])
+            j += 1
+    return out
+
+
+# ---------------------------------------------------------------------------------------------
+
+def eval_traces(ctx, fams=("ranges", "layouts")):
+    jobs = []
+    for fam in fams:
+        for k, c in enumerate(family(ctx, fam)):
+            jobs.append({"kcfg": c, "xs": xs_for(c), "variant": k})
+    return check.pmap(calib.eval_job, jobs, chunksize=4)
+
+
+def full_jobs(ctx, n, extra=None, **kw):
+    rng = ctx.rng
+    jobs = []
+    algos = ["sade", "sga", "sade"]
+    for k in range(n):
+        nv = rng.randint(1, 3)
+        vars_ = []
+        for _ in range(nv):
+            ar = rng.choice([1, 1, 2, 3])
+            lg = rng.random() < 0.4
+            if lg:
+                lo = [rng.choice([-2, -1, 0]) for _ in range(ar)]
+                hi = [a + rng.choice([1, 2]) for a in lo]
+            else:
+                lo = [rng.choice([0, 1, 2]) for _ in range(ar)]
+                hi = [a + rng.choice([1, 3]) for a in lo]
+            if rng.random() < 0.4:
+                lo, hi = [lo[0]] * ar, [hi[0]] * ar
+            vars_.append({"arity": ar, "log": lg, "lo": lo, "hi": hi})
+        rows, cols = 4, 3
+        npairs = rng.randint(1, 3)
+        pairs = [{"inp": rng.choice([0, 2, 5]) if npairs > 1 else 0,
+                  "w": [[1 + ((y + x + p) % 3 if rng.random() < 0.5 else 0) for x in range(cols)] for y in range(rows)],
+                  "target": [[10 + 7 * p + y * cols + x for x in range(cols)] for y in range(rows)]} for p in range(npairs)]
+        y0 = rng.choice([0, 1])
+        tr = [y0, y0 + 2, 0, 2]
+        dy = rng.choice([0, 1])
+        kc = {"vars": vars_, "pairs": pairs, "tr": tr, "rr": [tr[0] + dy, tr[1] + dy, tr[2] + 1, tr[3] + 1],
+              "ff": rng.choice(["abs", "sq"]), "rows": rows, "cols": cols}
+        job = {"kcfg": kc, "variant": k, "algo": algos[k % 3], "islands": rng.randint(1, 3), "evolutions": 2,
+               "best": rng.choice([2, 3]), "pygmo_seed": rng.randint(1, 999), "topology": rng.choice(["unconnected", "ring", "fully_connected"])}
+        job.update(kw)
+        if extra:
+            job["extra"] = dict(extra)
+        jobs.append(job)
+    return jobs
 
 
 def check_dispatch(ctx):
-    return
+    """C01 in calibration mode: every fitness evaluation runs the pipeline exactly once per
+    target/input pair."""
+    traces = eval_traces(ctx, fams=("layouts",))
+    ctx.cov["replayed_cases"] += len(traces)
+    validate(ctx, traces, [strip_eval(t, "C01") for t in traces], "calib", "C01")
+
+
+def check_isolation(ctx):
+    """C06 in calibration mode: every evaluation starts from the caller's state; the caller's
+    objects are unchanged; fitness of a decision vector does not depend on evaluation order."""
+    traces = check.pmap(calib.calib_job, full_jobs(ctx, ctx.pick(2, 10)), chunksize=1)
+    ctx.cov["replayed_cases"] += len(traces)
+    for t in traces:
+        mems = [m for e in t["events"] if e["e"] == "cand" for m in e["mems"]]
+        if any(m != 5 for m in mems):
+            ctx.violation("calib.state-leak", f"a fitness evaluation started from detector memory {sorted(set(mems))} "
+                          "instead of the caller's 5", t["case"], {})
+        if not t["meta"].get("user_unchanged", True):
+            ctx.violation("calib.user-objects", f"the caller's objects changed: {t['meta']['before']} -> {t['meta']['after']}",
+                          t["case"], {})
+    # order independence of fitness(x)
+    ev = eval_traces(ctx, fams=("layouts",))[: ctx.pick(20, 100)]
+    jobs = []
+    for t in ev:
+        j = copy.deepcopy(t["case"]["job"])
+        j["xs"] = list(reversed(j["xs"])) + j["xs"]
+        jobs.append(j)
+    again = check.pmap(calib.eval_job, jobs, chunksize=4)
+    for a, b in zip(ev, again):
+        fa = {tuple(e["x"]): e["fitness"] for e in a["events"] if e["e"] == "eval"}
+        for e in b["events"]:
+            if e["e"] == "eval" and fa.get(tuple(e["x"])) != e["fitness"]:
+                ctx.violation("calib.order", f"fitness({e['x']}) = {e['fitness']} after other evaluations but "
+                              f"{fa.get(tuple(e['x']))} when evaluated first", b["case"], {})
+                break
+    validate(ctx, again, [strip_eval(t, "C11") for t in again], "calib_order", "C06")
 
 
 def check_failures(ctx):
-    return
+    """C09 in calibration mode: a fault during the initial population and during evolution."""
+    jobs = []
+    base = full_jobs(ctx, ctx.pick(3, 10), islands=2, algo="sade")
+    for k, j in enumerate(base):
+        npairs = len(j["kcfg"]["pairs"])
+        init = 8 * 2 * npairs                       # model calls of the initial populations
+        for phase, n in (("initial", max(1, init // 3)), ("evolution", init + 3 * npairs + 1)):
+            jj = copy.deepcopy(j)
+            exc = ["ValueError", "KeyError", "ZeroDivisionError", "ProbeError"][(k + len(phase)) % 4]
+            jj["extra"] = {"fault": n, "exc": exc, "msg": f"calibration fault {phase} {k}"}
+            jj["phase"] = phase
+            jobs.append(jj)
+    traces = check.pmap(calib.calib_job, jobs, chunksize=1)
+    ctx.cov["replayed_cases"] += len(traces)
+    stripped = []
+    for t, j in zip(traces, jobs):
+        t["fault"] = j["extra"]["fault"]
+        for e in t["events"]:
+            if e["e"] == "failed":
+                e["msgok"] = bool(j["extra"]["msg"] in e["msg"])
+            if e["e"] == "done":
+                e["ncalls"] = t["meta"]["nevals"] * len(t["kcfg"]["pairs"])
+        rank_fitness(t)
+        stripped.append(strip_calib(t, "C09"))
+    ctx.notes["calibration_faults_surfaced"] = sum(1 for t in traces if any(e["e"] == "failed" for e in t["events"]))
+    validate(ctx, traces, stripped, "calib_faults", "C09")
+
+
+def _digest(meta):
+    return hashlib.sha1(json.dumps([meta.get("champions"), meta.get("champion_x")]).encode()).hexdigest()[:12]
 
 
 def check_parallel(ctx):
-    return
+    """C07 in calibration mode: for fixed seeds the outcome does not depend on the scheduler,
+    the number of workers, or the order in which islands finish being created."""
+    base = full_jobs(ctx, ctx.pick(2, 8), algo="sade")
+    jobs = []
+    for j in base:
+        j["islands"] = 3
+        for sch, w, delay in ((None, None, 0.0), ("synchronous", None, 0.0), ("threads", 1, 0.0), ("threads", 4, 0.02),
+                              ("threads", 16, 0.02)):
+            jj = copy.deepcopy(j)
+            jj["scheduler"], jj["workers"] = sch, w
+            if delay:
+                jj["extra"] = {"delay": delay}
+            jobs.append(jj)
+    traces = check.pmap(calib.calib_job, jobs, chunksize=1)
+    ctx.cov["replayed_cases"] += len(traces)
+    for k in range(0, len(traces), 5):
+        ref = traces[k]
+        for t in traces[k + 1:k + 5]:
+            if _digest(t["meta"]) != _digest(ref["meta"]):
+                ctx.violation("calib.parallel", f"calibration with fixed seeds gives champions {t['meta'].get('champions')} "
+                              f"under scheduler {t['case']['job'].get('scheduler')}/{t['case']['job'].get('workers')} "
+                              f"(model delays {t['case']['job'].get('extra')}) but {ref['meta'].get('champions')} by default",
+                              t["case"], {"scheduler": t["case"]["job"].get("scheduler")})
+
+
+def check_seeded(ctx):
+    """C04 in calibration mode: pygmo seed + pipeline seed make a stochastic calibration
+    reproducible whatever the prior generator state, and leave the generator untouched."""
+    import numpy as np
+
+    from harness import seed as S
+    jobs = full_jobs(ctx, ctx.pick(1, 4), algo="sade", extra={"noise": True}, pipeline_seed=17, islands=1)
+    for j in jobs:
+        events = []
+        key = "calibration|" + json.dumps(j["kcfg"]["vars"])
+        S._ORIG["seed"](4000 + j["variant"])
+        S.outside(events, j["variant"])
+        for rep in range(2):
+            events.append({"e": "begin", "key": key, "tok": S.state_digest()})
+            tr = calib.calib_job(j)
+            events.append({"e": "end", "key": key, "tok": S.state_digest(), "out": _digest(tr["meta"]),
+                           "raised": not any(e["e"] == "done" for e in tr["events"])})
+            S.outside(events, j["variant"] + rep + 1)
+        ctx.cov["replayed_cases"] += 2
+        from harness.drivers import C04
+        C04.validate(ctx, [{"events": events, "case": {"kind": "calibration", "job": dict(j, mode="calibration")}}],
+                     f"calib{j['variant']}")
 
 
 def replay(ctx, payload):
-    raise NotImplementedError
+    case = payload["case"]
+    if case["kind"] == "eval":
+        tr = calib.eval_job(case["job"])
+        print(json.dumps(tr["events"], indent=0)[:3000])
+        validate(ctx, [tr], [strip_eval(tr, ctx.prop if ctx.prop in EVAL_FIELDS else "C11")], "replay", ctx.prop)
+    else:
+        tr = calib.calib_job(case["job"])
+        tr["fault"] = (case["job"].get("extra") or {}).get("fault", -1)
+        print(json.dumps(tr["events"][-6:], indent=0)[:3000], tr["meta"])
+        rank_fitness(tr)
+        validate(ctx, [tr], [strip_calib(tr, ctx.prop)], "replay", ctx.prop)
+    return ctx.finish()
